@@ -43,15 +43,17 @@ def defaultParams : CertParams :=
 def insertStdEkus (cur : List Eku) (oids : List (List Nat)) : List Eku :=
   stdEkus.foldl (fun acc e => if oids.contains e.oid && !acc.contains e then acc ++ [e] else acc) cur
 
+/-- the content of an Extension's extnValue OCTET STRING -/
+def rawExtOf : Asn1 → Option Bytes
+  | .cons 0 16 [_, .prim 0 4 v] => some v
+  | .cons 0 16 [_, _, .prim 0 4 v] => some v
+  | _ => none
+
 /-- the raw extension values (content of each extnValue OCTET STRING) of an extensionRequest
     attribute's SET, in order; `none` when the SET does not hold exactly one SEQUENCE OF Extension -/
 def rawExtValues (values : Bytes) : Option (List Bytes) :=
   match decodeAll values with
-  | some (.cons 0 17 [.cons 0 16 exts]) =>
-    exts.mapM (fun e => match e with
-      | .cons 0 16 [_, .prim 0 4 v] => some v
-      | .cons 0 16 [_, _, .prim 0 4 v] => some v
-      | _ => none)
+  | some (.cons 0 17 [.cons 0 16 exts]) => exts.mapM rawExtOf
   | _ => none
 
 /-- number of values in an attribute's SET -/
